@@ -5,7 +5,7 @@ from fractions import Fraction
 import core
 import gen
 
-PROOF_MODULES = ["UnytProofs.C02"]
+PROOF_MODULES = ["UnytProofs.C02", "UnytProofs.C02Num"]
 
 
 def snippet(body):
